@@ -1000,7 +1000,7 @@ impl TypeChecker {
                 no_ret(f_ty)
             }
 
-            E::Blob { blob, fields, span, .. } => {
+            E::Blob { blob, fields, self_var, span } => {
                 let blob_ty = self.copy(self.variables[*blob].ty);
                 let (blob_name, blob_fields, blob_args) = match self.find_type(blob_ty) {
                     Type::Blob(name, _, fields, args) => (name, fields, args),
@@ -1069,6 +1069,9 @@ impl TypeChecker {
                     fields_and_types.clone(),
                     blob_args.clone(),
                 ));
+
+                // Inside the fields `self` is the instance we're building.
+                self.unify(*span, ctx, self.variables[*self_var].ty, given_blob)?;
 
                 // Unify the fields with their real types
                 let ret = Some(self.push_type(Type::Unknown));
